@@ -17,7 +17,7 @@ ASSUMPTIONS = ['congruence modulus is a concrete positive number (1, 3, 2*pi as 
                'eigenvector/entry comparers: 2x2 (3x3 thorough) matrices / vectors of symbolic entries; absolute tolerances symbolic, percentage tolerances from a list']
 BOUNDS = {'quick': 'between: all reals; congruence: 3 moduli x symbolic target/input/tolerance; eigenvector 2x2; entry comparer 2-vectors and 2x2, 1-2 samples; '
                    'LinearComparer equals/offset with 3 scalar samples (NRA, 30 s cap)', 'thorough': 'eigenvector 3x3, entry comparer 2x3 with 2 samples'}
-OUTSIDE = ['vector_span_comparer beyond one real spanning vector (stubbed least squares), vector_phase_comparer, LinearComparer proportional/linear modes (np.linalg.lstsq is LAPACK)', 'complex targets',
+OUTSIDE = ['vector_span_comparer / vector_phase_comparer beyond one real vector (stubbed least squares; complex phases other than +1/-1), LinearComparer proportional/linear modes (np.linalg.lstsq is LAPACK)', 'complex targets',
            'invariance of the eigenvector verdict under rescaling with percentage tolerance (NRA timeout in probes)']
 DEADLINE = {'quick': 170, 'thorough': 1500}
 FUNCS = ['comparers.between_comparer', 'comparers.congruence_comparer', 'comparers.eigenvector_comparer', 'comparers.MatrixEntryComparer.__call__',
@@ -298,6 +298,38 @@ def h_span1(E, n, tolkind):
     return 'ok'
 
 
+def h_phase1(E, n, tolkind):
+    """vector_phase_comparer on real vectors (the unit-modulus phases of a real target that keep it real are +1 and -1; least squares stubbed by
+    the exact projection): with zero tolerance accepted iff student = +target or -target; with an absolute tolerance accepted iff the residual
+    against the span AND the difference of the two norms are within tolerance"""
+    import mitxgraders.comparers.comparers as CM
+    from mitxgraders.comparers import vector_phase_comparer
+    v = _arr(E, 'v', (n,), 1, 3)
+    s_ = _arr(E, 's', (n,), -3, 3)
+    tol = E.real('tol', 0, 1) if tolkind == 'abs' else 0
+    if E.mode == 'conc':
+        r = vector_phase_comparer([v], s_, utils_for(tol, matrix=True))
+    else:
+        with shadow(CM, np=_NpWithLstsq()):
+            r = vector_phase_comparer([v], s_, utils_for(tol, matrix=True))
+    accepted = r if hasattr(r, 'e') else bool(r)
+    if tolkind == 'zero':
+        plus = sand(*[near_eq(s_[i], v[i]) for i in range(n)])
+        minus = sand(*[near_eq(s_[i], -v[i]) for i in range(n)])
+        E.check('zero-tolerance-accepts-only-plus-or-minus-target', simplies(accepted, sor(plus, minus)))
+        E.check('plus-or-minus-target-accepted', simplies(sor(sand(*[s_[i] == v[i] for i in range(n)]), sand(*[s_[i] == -v[i] for i in range(n)])), accepted))
+        return 'ok'
+    s2 = sum(s_[i] * s_[i] for i in range(n))
+    vv = sum(v[i] * v[i] for i in range(n))
+    vs = sum(v[i] * s_[i] for i in range(n))
+    in_span = near_le(s2 * vv - vs * vs, tol * tol * vv)
+    # | |v| - |s| | <= tol   <=>   vv + s2 - tol^2 <= 2 |v||s|   <=>   (rhs >= 0 and lhs <= 0) or lhs^2 <= 4 vv s2
+    lhs = vv + s2 - tol * tol
+    same_mag = sor(near_le(lhs, 0), near_le(lhs * lhs, 4 * vv * s2))
+    E.check('accepted-iff-in-span-and-same-magnitude', siff(accepted, sand(in_span, same_mag)))
+    return 'ok'
+
+
 def h_linear_zero(E, shape, samples):
     """LinearComparer.check_comparing_zero / get_valid_modes: proportional and linear relations are dropped exactly when the student samples are
     all (nearly) zero or the expected samples are all exactly zero - decided for every entry value"""
@@ -352,6 +384,8 @@ def harnesses(tier):
                 add(h_shape_policy, 'shape_policy', dict(raised=raised, detail=detail, suppress=sup), 'symbolic constant')
     for tk in ('abs', '1%'):
         add(h_span1, 'span1', dict(n=2, tol=tk), 'one real spanning 2-vector, symbolic student vector (NRA)', expect_inconclusive=True)
+    for tk in ('zero',) + (('abs',) if T else ()):
+        add(h_phase1, 'phase1', dict(n=2, tol=tk), 'real target 2-vector, symbolic real student vector (NRA)', expect_inconclusive=True)
     for shape, samples in [((), 3), ((2,), 2), ((3,), 1)] + ([((2, 2), 2)] if T else []):
         add(h_linear_zero, 'linear_zero', dict(shape='x'.join(map(str, shape)) or 'scalar', samples=samples), 'symbolic entries and tolerance')
         hs[-1].params = (shape, samples)
